@@ -107,7 +107,7 @@ class FileSpec:
         self.rewrites = []   # (rule, count, regex, repl, line)
         self.drop_use = []   # regexes
 
-TAG_RE = re.compile(r'//\s*((?:C\d{2,3}\b\s*)+)\s*$')
+TAG_RE = re.compile(r'//\s*((?:C\d{2,3}\b\s*)+)\s*(?:@verify-only)?\s*$')
 
 def parse(path):
     fs = FileSpec(path)
